@@ -21,12 +21,17 @@ type Frame struct {
 	call   ssa.Value // instruction in the caller that receives the result
 	defers []deferred
 	visits map[int]int // loop header visit counts
+	// onReturn, if set, receives the result instead of the caller's environment
+	onReturn func(st *State, res Value)
+	sync     bool          // synchronous call: run() returns when this frame returns
+	measures map[int]*Term // progress monitor: last measure per loop header
 }
 
 type deferred struct {
-	fn   Value
-	args []Value
-	call *ssa.CallCommon
+	fn      Value
+	args    []Value
+	call    *ssa.CallCommon
+	builtin *ssa.Builtin
 }
 
 type State struct {
@@ -35,18 +40,29 @@ type State struct {
 	frames  []*Frame
 	nextObj *int
 	nondet  []nondetRec
-	reached map[string]bool
+	events  []Event
+	ghost   map[string]Value // engine-side per-path variables (monitors)
+	notes   []string
 }
 
 type nondetRec struct {
-	name string
-	sort string
+	fn   string // harness function that asked
+	name string // solver symbol
 	kind string // "bv","bool","bytes"
+	w    int
 	lenT *Term
 }
 
 func (st *State) clone() *State {
-	n := &State{heap: make(map[int]*Obj, len(st.heap)), globals: st.globals, nextObj: st.nextObj, reached: st.reached}
+	n := &State{heap: make(map[int]*Obj, len(st.heap)), globals: st.globals, nextObj: st.nextObj}
+	n.events = append([]Event(nil), st.events...)
+	n.notes = append([]string(nil), st.notes...)
+	if st.ghost != nil {
+		n.ghost = make(map[string]Value, len(st.ghost))
+		for k, v := range st.ghost {
+			n.ghost[k] = v
+		}
+	}
 	for k, v := range st.heap {
 		n.heap[k] = v
 	}
@@ -62,6 +78,12 @@ func (st *State) clone() *State {
 		nf.visits = make(map[int]int, len(f.visits))
 		for k, v := range f.visits {
 			nf.visits[k] = v
+		}
+		if f.measures != nil {
+			nf.measures = make(map[int]*Term, len(f.measures))
+			for k, v := range f.measures {
+				nf.measures[k] = v
+			}
 		}
 		n.frames[i] = &nf
 	}
@@ -95,10 +117,10 @@ func zeroValue(t types.Type) Value {
 			return PtrV{}
 		}
 		if u.Kind() == types.Float32 {
-			return bvConst(0, 32)
+			return FloatV{bits: bvConst(0, 32), w: 32}
 		}
 		if u.Kind() == types.Float64 {
-			return bvConst(0, 64)
+			return FloatV{bits: bvConst(0, 64), w: 64}
 		}
 	case *types.Pointer:
 		return PtrV{}
@@ -124,7 +146,7 @@ func zeroValue(t types.Type) Value {
 	case *types.Map:
 		return MapRef{}
 	case *types.Chan:
-		return OpaqueV{kind: "chan"}
+		return ChanRef{}
 	case *types.Signature:
 		return FuncV{}
 	case *types.Tuple:
